@@ -245,7 +245,7 @@ class Scheduler (object):
       return True
 
     st = ScheduleTask(self, task)
-    st.start(fast=True)
+    st.start(self, fast=True)
 
   def fast_schedule (self, task, first = False):
     """
